@@ -252,7 +252,9 @@ PROPS = {
         "groups": [{"name": "C13", "quick": 6000, "thorough": 200000},
                    # the layout functions called from several goroutines at once (loaders render while frames are drawn)
                    {"name": "C13par", "quick": 60, "thorough": 3000, "workers": 4},
-                   {"name": "C13x", "quick": 0, "thorough": 6, "workers": 1}, {"name": "unicodeall", "quick": 0, "thorough": 1, "workers": 1}],
+                   {"name": "C13x", "quick": 0, "thorough": 6, "workers": 1}, {"name": "unicodeall", "quick": 0, "thorough": 1, "workers": 1},
+                   # the layout functions as the renderers call them: whole documents laid out at sequences of widths
+                   {"name": "render", "quick": 800, "thorough": 20000}],
         "rule": "styled text from a cell grammar (words, runs of all IsSpace kinds, newlines, nested SGR attributes; 1 in 5 a hostile ESC/[/m string) x widths -3..250; "
                 "one case in six from the edges: one text wrapped at every width from 0 past its longest line (or at the widths around its line lengths and 80/120/200), paragraphs of 20..200 words with over-long words at 40..500 columns and through the wrap-then-snip pipeline, "
                 "a wide / combining / invisible / blank-looking (IsSpace and not) character at position w-1, w or w+1, snip with heights n-2..n+1, 0, -1, 1000, 65536 and widths equal to a line's length, one off, 0, -1, 65535, 2^31 over texts with blank lines at the end and in between and five ellipses, "
